@@ -526,6 +526,9 @@ type twoConnCase struct {
 	Rounds int    `json:"rounds"`
 	Head   int    `json:"head"`
 	Seed   uint64 `json:"seed"`
+	// PauseMs: A waits this long before it sends the rest (longer than the server's ReadTimeout of 20 ms: read deadlines pass on A's
+	// connection while its request is incomplete)
+	PauseMs int `json:"pause_ms,omitempty"`
 }
 
 func runTwoConn(c twoConnCase) harness.Result {
@@ -571,6 +574,9 @@ func runTwoConn(c twoConnCase) harness.Result {
 			return harness.Fail("round %d: connection B sent the whole request %x while connection A had %d bytes of a request pending: received %x, the handler's reply to it is %x", i, fb, head, all[gotB:], wantB)
 		}
 		gotB += 9
+		if c.PauseMs > 0 {
+			time.Sleep(time.Duration(c.PauseMs) * time.Millisecond)
+		}
 		if _, err := ca.Write(fa[head:]); err != nil {
 			return harness.Fail("round %d: connection A: write failed: %v", i, err)
 		}
@@ -584,7 +590,11 @@ func runTwoConn(c twoConnCase) harness.Result {
 
 var chkTwoConn = harness.Define("server-joins-classifier-and-dispatcher-two-connections",
 	func(t *rapid.T) twoConnCase {
-		return twoConnCase{Rounds: rapid.IntRange(1, 12).Draw(t, "rounds"), Head: rapid.IntRange(1, 18).Draw(t, "head"), Seed: rapid.Uint64().Draw(t, "seed")}
+		c := twoConnCase{Rounds: rapid.IntRange(1, 12).Draw(t, "rounds"), Head: rapid.IntRange(1, 18).Draw(t, "head"), Seed: rapid.Uint64().Draw(t, "seed")}
+		if rapid.IntRange(0, 3).Draw(t, "pause") == 0 {
+			c.PauseMs, c.Rounds = 50, 1+c.Rounds%3
+		}
+		return c
 	}, runTwoConn)
 
 func TestTwoConnections(t *testing.T) { chkTwoConn.Rapid(t, harness.Pick(25, 600)) }
